@@ -118,6 +118,26 @@ Fixpoint st_of_sexp (x : sexp) : option st :=
         end
       else if t =? "list" then option_map SLst (many args)
       else if t =? "map" then option_map SMap (pairs args)
+      else if t =? "listt" then option_map SLstT (many args)
+      else if t =? "mapt" then option_map SMapT (pairs args)
+      else if t =? "msgt" then
+        match args with
+        | Atom lead :: SList (Atom "names" :: ns) :: fs =>
+            match opt_map_list opt_str ns, flds fs with
+            | Some ns', Some fs' => Some (SMsgT (lead =? "true") ns' fs')
+            | _, _ => None
+            end
+        | _ => None
+        end
+      else if t =? "dotid" then match args with [n] => option_map SDotId (opt_str n) | _ => None end
+      else if t =? "dotcall" then
+        match args with f :: rs => match opt_str f, many rs with
+                                   | Some f', Some rs' => Some (SDotCall f' rs') | _, _ => None end
+                      | _ => None end
+      else if t =? "selesc" then
+        match args with [a; f] => match st_of_sexp a, opt_str f with
+                                  | Some a', Some f' => Some (SSelEsc a' f') | _, _ => None end
+                      | _ => None end
       else None
   | _ => None
   end.
